@@ -177,7 +177,7 @@ def instances(tier, rnd):
         yield dict(height=h, width=w, problem=[[0] * w for _ in range(h)])
         base = _all(h, w)
         cells = [(y, x) for y in range(h) for x in range(w)]
-        n = min(per, 3 + 2 * h * w) if quick else per
+        n = min(per, 3 + 2 * h * w) if quick else min(per, 2 + 8 * h * w)
         for i in range(n):
             sol = rnd.choice(base)
             k = rnd.randint(0, len(cells))
